@@ -77,6 +77,8 @@ Proof. intros H1 H2. apply (proj2 (NoDup_Add (Add_app x a b))). split; assumptio
 
 Section Facts.
 Variable fresh : nat -> id.
+(* what is known of every GIVEN node uuid (instantiated at the end: it is one of the rows' `_nodeId`s) *)
+Variable GP : id -> Prop.
 Hypothesis fresh_inj : forall a b, fresh a = fresh b -> a = b.
 
 (* ---------------------------------------------------------------- identifiers drawn so far *)
@@ -387,7 +389,8 @@ Inductive BodyOK (n : nat) (U : list id) : cbody -> Prop :=
 Record NodeOK (n : nat) (U : list id) (nd : cnode) : Prop := {
   no_uuid : cn_given nd = false -> below n (cn_uuid nd);
   no_acts : Forall (below n) (map fst (cn_actions nd));
-  no_body : BodyOK n U (cn_body nd) }.
+  no_body : BodyOK n U (cn_body nd);
+  no_given : cn_given nd = true -> GP (cn_uuid nd) }.
 
 Lemma BodyOK_mono n n' U U' b : n <= n' -> incl U U' -> BodyOK n U b -> BodyOK n' U' b.
 Proof.
@@ -399,18 +402,20 @@ Qed.
 
 Lemma NodeOK_mono n n' U U' nd : n <= n' -> incl U U' -> NodeOK n U nd -> NodeOK n' U' nd.
 Proof.
-  intros Hle Hi [H1 H2 H3]. constructor.
+  intros Hle Hi [H1 H2 H3 H4]. constructor.
   - intros Hg. eapply below_mono; [exact Hle|apply H1, Hg].
   - eapply Forall_below_mono; eauto.
   - eapply BodyOK_mono; eauto.
+  - exact H4.
 Qed.
 
 Lemma NodeOK_with_body n n' U nd b : n <= n' -> NodeOK n U nd -> BodyOK n' U b -> NodeOK n' U (with_body nd b).
 Proof.
-  intros Hle [H1 H2 _] Hb. constructor; cbn.
+  intros Hle [H1 H2 _ H4] Hb. constructor; cbn.
   - intros Hg. eapply below_mono; [exact Hle|apply H1, Hg].
   - eapply Forall_below_mono; eauto.
   - exact Hb.
+  - exact H4.
 Qed.
 
 (* node_uuid: the uuid is the given one, or the next draw *)
@@ -421,6 +426,22 @@ Proof.
   unfold node_uuid. destruct given as [|c r]; intros H; injection H as <- <- <-.
   - split; [lia|]. split; [lia|]. split; [intros _; apply below_fresh; lia|]. split; [intros E; contradiction|reflexivity].
   - split; [lia|]. split; [lia|]. split; [discriminate|]. split; [intros _; split; reflexivity|discriminate].
+Qed.
+
+Lemma node_uuid_given given n u g n1 :
+  node_uuid fresh given n = (u, g, n1) -> (given <> [] -> GP given) -> g = true -> GP u.
+Proof.
+  unfold node_uuid. destruct given as [|c r]; intros H; injection H as <- <- <-; [discriminate|].
+  intros Hg _. apply Hg. discriminate.
+Qed.
+
+Lemma new_switch_parts_given n given operand result timeout u g r n' :
+  new_switch_parts fresh n given operand result timeout = Ok (u, g, r, n') ->
+  (given <> [] -> GP given) -> g = true -> GP u.
+Proof.
+  unfold new_switch_parts. destruct (node_uuid fresh given n) as [[u0 g0] n1] eqn:Eu.
+  destruct operand as [|c o]; [discriminate|]. destruct (new_switch _ _ _ _ _) as [[r0 n3]|e]; [|discriminate].
+  intros H. injection H as <- <- <- <-. eapply node_uuid_given; eauto.
 Qed.
 
 Lemma new_switch_parts_ok n U given operand result timeout u g r n' :
@@ -436,21 +457,27 @@ Proof.
 Qed.
 
 Lemma new_switch_node_ok n U given operand result timeout nd n' :
+  (given <> [] -> GP given) ->
   new_switch_node fresh n given operand result timeout = Ok (nd, n') ->
   n <= n' /\ NodeOK n' U nd /\ (given <> [] -> cn_uuid nd = given).
 Proof.
+  intros Hgiven.
   unfold new_switch_node. destruct (new_switch_parts fresh n given operand result timeout) as [[[[u g] r] n3]|e] eqn:E; [|discriminate].
+  pose proof (new_switch_parts_given _ _ _ _ _ _ _ _ _ E Hgiven) as HG.
   apply (new_switch_parts_ok _ U) in E as (H1 & H2 & H3 & H4 & _). intros H. injection H as <- <-.
   split; [exact H1|]. split.
-  - constructor; cbn; [exact H2|constructor|constructor; exact H3].
+  - constructor; cbn; [exact H2|constructor|constructor; exact H3|exact HG].
   - intros Hg. apply H4, Hg.
 Qed.
 
 Lemma new_enter_node_ok n U given name payload nd n' :
+  (given <> [] -> GP given) ->
   new_enter_node fresh n given name payload = Ok (nd, n') ->
   n <= n' /\ NodeOK n' U nd /\ (given <> [] -> cn_uuid nd = given).
 Proof.
+  intros Hgiven.
   unfold new_enter_node. destruct (node_uuid fresh given n) as [[u0 g0] n1] eqn:Eu.
+  pose proof (fun Hg => node_uuid_given _ _ _ _ _ Eu Hgiven Hg) as HG.
   apply node_uuid_spec in Eu as (H1 & H2 & H3 & H4 & H5).
   destruct name as [|c o]; [discriminate|].
   destruct (new_switch fresh (S (S n1)) s_child_run_status None None) as [[r0 n3]|e] eqn:Er; [|discriminate].
@@ -464,14 +491,18 @@ Proof.
     + intros Hg. eapply below_mono; [|apply H3, Hg]. lia.
     + constructor; [apply below_fresh; lia|constructor].
     + constructor. exact H11.
+    + exact HG.
   - intros Hg. apply H4, Hg.
 Qed.
 
 Lemma new_outcome_node_ok n U given sv payload wh nd n' :
+  (given <> [] -> GP given) ->
   new_outcome_node fresh n given sv payload wh = Ok (nd, n') ->
   n <= n' /\ NodeOK n' U nd /\ (given <> [] -> cn_uuid nd = given).
 Proof.
+  intros Hgiven.
   unfold new_outcome_node. destruct (node_uuid fresh given n) as [[u0 g0] n1] eqn:Eu.
+  pose proof (fun Hg => node_uuid_given _ _ _ _ _ Eu Hgiven Hg) as HG.
   apply node_uuid_spec in Eu as (H1 & H2 & H3 & H4 & H5).
   destruct sv as [|c o]; [discriminate|].
   destruct (field_key (c :: o)) as [key|e]; [|discriminate].
@@ -484,39 +515,47 @@ Proof.
     + intros Hg. eapply below_mono; [|apply H3, Hg]. lia.
     + constructor; [apply below_fresh; lia|constructor].
     + constructor. apply SwOK_update_default; [exact I|exact H9].
+    + exact HG.
   - intros Hg. apply H4, Hg.
 Qed.
 
 Lemma new_row_node_ok n U k given acts payload nd n' :
+  (given <> [] -> GP given) ->
   Forall (below n) (map fst acts) ->
   new_row_node fresh n k given acts payload = Ok (nd, n') ->
   n <= n' /\ NodeOK n' U nd /\ (given <> [] -> cn_uuid nd = given).
 Proof.
-  intros Ha. unfold new_row_node. destruct k as [| |t sv|op sv|sv|sv|name|sv|sv].
+  intros Hgiven Ha. unfold new_row_node. destruct k as [| |t sv|op sv|sv|sv|name|sv|sv].
   - destruct (node_uuid fresh given n) as [[u0 g0] n1] eqn:Eu.
+    pose proof (fun Hg => node_uuid_given _ _ _ _ _ Eu Hgiven Hg) as HG.
     apply node_uuid_spec in Eu as (H1 & H2 & H3 & H4 & H5). intros H. injection H as <- <-.
     split; [lia|]. split; [|intros Hg; apply H4, Hg]. constructor; cbn.
     + intros Hg. eapply below_mono; [|apply H3, Hg]. lia.
     + eapply Forall_below_mono; [|exact Ha]. lia.
     + constructor; cbn; [apply below_fresh; lia|exact I].
+    + exact HG.
   - destruct (node_uuid fresh given n) as [[u0 g0] n1] eqn:Eu.
+    pose proof (fun Hg => node_uuid_given _ _ _ _ _ Eu Hgiven Hg) as HG.
     apply node_uuid_spec in Eu as (H1 & H2 & H3 & H4 & H5). intros H. injection H as <- <-.
     split; [lia|]. split; [|intros Hg; apply H4, Hg]. constructor; cbn.
     + intros Hg. eapply below_mono; [|apply H3, Hg]. lia.
     + eapply Forall_below_mono; [|exact Ha]. lia.
     + constructor; cbn; [apply below_fresh; lia|exact I].
-  - apply new_switch_node_ok.
-  - apply new_switch_node_ok.
-  - apply new_switch_node_ok.
+    + exact HG.
+  - apply new_switch_node_ok, Hgiven.
+  - apply new_switch_node_ok, Hgiven.
+  - apply new_switch_node_ok, Hgiven.
   - destruct (node_uuid fresh given n) as [[u0 g0] n1] eqn:Eu.
+    pose proof (fun Hg => node_uuid_given _ _ _ _ _ Eu Hgiven Hg) as HG.
     apply node_uuid_spec in Eu as (H1 & H2 & H3 & H4 & H5). intros H. injection H as <- <-.
     split; [lia|]. split; [|intros Hg; apply H4, Hg]. constructor; cbn.
     + intros Hg. eapply below_mono; [|apply H3, Hg]. lia.
     + constructor.
     + constructor. apply CatsOK_nil.
-  - apply new_enter_node_ok.
-  - apply new_outcome_node_ok.
-  - apply new_outcome_node_ok.
+    + exact HG.
+  - apply new_enter_node_ok, Hgiven.
+  - apply new_outcome_node_ok, Hgiven.
+  - apply new_outcome_node_ok, Hgiven.
 Qed.
 
 (* update_default_exit *)
@@ -529,14 +568,14 @@ Proof.
     apply NodeOK_with_body with (n := n); [lia|exact Hok|]. constructor; cbn; [apply below_fresh; lia|exact Hd].
   - destruct cls; try discriminate; intros H; injection H as <- <-; (split; [lia|]); (split; [|reflexivity]);
       (apply NodeOK_with_body with (n := n); [lia|exact Hok|]); constructor;
-      destruct Hok as [_ _ Hb]; rewrite Eb in Hb; inversion Hb; subst; apply SwOK_update_default; assumption.
+      destruct Hok as [_ _ Hb _]; rewrite Eb in Hb; inversion Hb; subst; apply SwOK_update_default; assumption.
   - discriminate.
 Qed.
 
 Lemma node_fill_loose_ok n U nd d : NodeOK n U nd -> dest_ok U d -> NodeOK n U (node_fill_loose nd d).
 Proof.
   intros Hok Hd. unfold node_fill_loose. apply NodeOK_with_body with (n := n); [lia|exact Hok|].
-  destruct Hok as [_ _ Hb]. destruct (cn_body nd) as [e|cls r|r]; inversion Hb; subst.
+  destruct Hok as [_ _ Hb _]. destruct (cn_body nd) as [e|cls r|r]; inversion Hb; subst.
   - constructor; unfold fill_exit; destruct (is_loose (x_dest e)); cbn; assumption.
   - constructor. match goal with H : SwOK _ _ _ |- _ => destruct H as [H1 H2 H3] end. constructor.
     + unfold sw_all_cats in *. cbn.
